@@ -162,9 +162,10 @@ type opRun struct {
 }
 
 var (
-	seq     atomic.Int64
-	byGID   sync.Map // goroutine id -> *opRun
-	hookSet sync.Once
+	mutatorsLeft atomic.Int64 // mutators of the current wave that have not returned yet
+	seq          atomic.Int64
+	byGID        sync.Map // goroutine id -> *opRun
+	hookSet      sync.Once
 )
 
 func gid() int64 {
@@ -191,22 +192,36 @@ func installHooks() {
 		r.ev.Sel = seq.Add(1)
 		r.ev.HookPred = true
 	}
-	sel := func(...any) {
-		v, ok := byGID.Load(gid())
-		if !ok {
-			return
-		}
-		r := v.(*opRun)
-		r.ev.SelDone = seq.Add(1)
-		r.ev.HookSel = true
-		if r.force == "sel" {
-			time.Sleep(hookDelay)
+	sel := func(shift bool) func(...any) {
+		return func(...any) {
+			v, ok := byGID.Load(gid())
+			if !ok {
+				return
+			}
+			r := v.(*opRun)
+			r.ev.SelDone = seq.Add(1)
+			r.ev.HookSel = true
+			if r.force != "sel" {
+				return
+			}
+			if !shift {
+				time.Sleep(hookDelay)
+				return
+			}
+			// Between a shift's selection and its removal the engine may hold a lock (a repaired tree
+			// does): sleeping here would park a lock holder, the requests queued behind it are then not
+			// durably blocked and virtual time could never advance. Instead yield until every mutator
+			// of the wave has returned (they do not depend on this request), with a spin budget as a
+			// stop. This only shapes the schedule; nothing is decided by it.
+			for spin := 0; spin < 3_000_000 && mutatorsLeft.Load() > 0; spin++ {
+				runtime.Gosched()
+			}
 		}
 	}
 	verifhook.Set("gw.shiftMatching.afterPredicate", pred)
 	verifhook.Set("gw.patchExpired.afterPredicate", pred)
-	verifhook.Set("swamp.patchExpired.afterSelect", sel)
-	verifhook.Set("swamp.shift.afterSelect", sel)
+	verifhook.Set("swamp.patchExpired.afterSelect", sel(false))
+	verifhook.Set("swamp.shift.afterSelect", sel(true))
 }
 
 func ts(v int64) *timestamppb.Timestamp { return timestamppb.New(time.Unix(0, v).UTC()) }
@@ -450,6 +465,19 @@ func runSched(t *testing.T, s *sched) (lg *runLog) {
 	root := rig.TempRoot("c11")
 	defer rig.RemoveAll(root)
 	lg = &runLog{}
+	// synctest.Test ends with t.FailNow() when the race detector reported something during the
+	// bubble (races are counted, not judged, here): run it on a helper goroutine so that the Goexit
+	// does not take the whole check with it.
+	finished := make(chan struct{})
+	go func() {
+		defer close(finished)
+		runBubble(t, s, lg, root)
+	}()
+	<-finished
+	return lg
+}
+
+func runBubble(t *testing.T, s *sched, lg *runLog, root string) {
 	synctest.Test(t, func(t *testing.T) {
 		verifhook.Reset()
 		installHooks()
@@ -532,6 +560,12 @@ func runSched(t *testing.T, s *sched) (lg *runLog) {
 		for w := 0; w < waves; w++ {
 			start := make(chan struct{})
 			var runs []*event
+			mutatorsLeft.Store(0)
+			for i := range s.Ops {
+				if s.Ops[i].Wave == w && !s.Ops[i].claimer() {
+					mutatorsLeft.Add(1)
+				}
+			}
 			for i := range s.Ops {
 				o := &s.Ops[i]
 				if o.Wave != w {
@@ -542,6 +576,9 @@ func runSched(t *testing.T, s *sched) (lg *runLog) {
 				runs = append(runs, ev)
 				go func() {
 					defer func() {
+						if !o.claimer() {
+							mutatorsLeft.Add(-1)
+						}
 						orderMu.Lock()
 						ev.Done = true
 						orderMu.Unlock()
@@ -606,5 +643,4 @@ func runSched(t *testing.T, s *sched) (lg *runLog) {
 			incon("%v", err)
 		}
 	})
-	return lg
 }
